@@ -237,7 +237,7 @@ def run(ck):
             want_atom = ('atom', ('truth', '{}.share_moltype_with({})'.format(u(outer[0].target), u(il.target.elts[1]))))
             effects = [n for st_ in il.body for n in ast.walk(st_) if isinstance(n, ast.stmt) and not isinstance(n, (ast.If, ast.Continue, ast.Break, ast.Pass))
                        and not interp._is_log_stmt(n)]
-            ok = len(brks) == 1 and flow.equivalent(brks[0][1], want_atom)[0] and not effects
+            ok = len(brks) == 1 and flow.equivalent(brks[0][1], want_atom)[0] and not effects and u(il.iter) == 'representatives'
             new = u(ast.Module(body=il.orelse, type_ignores=[]))
             ok = ok and 'group_id += 1' in new and 'representatives.append((group_id, {}))'.format(u(outer[0].target)) in new and '{} = group_id'.format(mid) in new
             store = [s for s in outer[0].body if isinstance(s, ast.Assign) and 'meta[' in u(s.targets[0])]
